@@ -142,6 +142,10 @@ class AbsoluteSequence(AbstractSequence):
             if self_msg.message_type != other_msg.message_type:
                 return False
 
+            # Compare points in time
+            if self_msg.time != other_msg.time:
+                return False
+
             if self_msg.message_type == MessageType.NOTE_ON:
                 self_msg_value = self_msgs[1].time - self_msg.time
                 other_msg_value = other_msgs[1].time - other_msg.time
